@@ -191,6 +191,9 @@ HashClauses(ev, Q) ==
    <<"different_content_different_hash", ev.digest \in DOMAIN seen => seen[ev.digest] = <<ev.lab, Q>>>>}
   \cup (IF Has(ev, "digest_reordered")
         THEN {<<"hash_independent_of_dictionary_key_order", ev.digest_reordered = ev.digest>>} ELSE {})
+  \* two copies that differ in one (float) weight by a relative 2^-34 are different contents
+  \cup (IF Has(ev, "digest_close")
+        THEN {<<"hash_distinguishes_close_weights", ev.digest_close[1] # ev.digest_close[2]>>} ELSE {})
 
 ---------------------------------------------------------------------------
 TInit == /\ ti = 1 /\ li = 1 /\ store = <<>> /\ nbad = 0 /\ nev = 0 /\ seen = <<>>
